@@ -111,6 +111,21 @@ def ensure_build(race=False, verbose=True):
         cmd = [GO, "test", "-c", "-tags", "verif", "-trimpath", "-vet=off", "-o", binp]
         if race:
             cmd.insert(3, "-race")
+            # The race-enabled runtime deliberately randomises its scheduler
+            # (runtime/proc.go: const randomizeScheduler = raceenabled). Replays need the
+            # ordinary scheduling order, so the race build compiles the runtime with that
+            # constant off, through a build overlay (the toolchain on disk is untouched).
+            goroot = subprocess.check_output([GO, "env", "GOROOT"], env=ENV, text=True).strip()
+            src = os.path.join(goroot, "src", "runtime", "proc.go")
+            txt = open(src).read()
+            if "const randomizeScheduler = raceenabled" not in txt:
+                sys.stderr.write("BUILD FAILED (exit 2): runtime/proc.go has no randomizeScheduler constant to switch off\n")
+                raise SystemExit(2)
+            patched = os.path.join(bdir, "proc_norandom.go")
+            open(patched, "w").write(txt.replace("const randomizeScheduler = raceenabled", "const randomizeScheduler = false"))
+            ov = os.path.join(bdir, "overlay.json")
+            json.dump({"Replace": {src: patched}}, open(ov, "w"))
+            cmd.insert(4, "-overlay=" + ov)
         cmd.append("./harness")
         rc, out = run(cmd, cwd=os.path.join(bdir, "sim"))
         if rc != 0:
